@@ -402,7 +402,7 @@ class Sweep:
         exp += list(c["adr"]) + list(c["rnz"])
       sp = "true" if sparse else "false"
       self.lines.append(
-        f"tvz (efc_view {njmax} {nz} {sp} ({SENT}) (run_tasks {njmax} {nz} {sp} ts_{k} (init_st {vlib.zlist(adr0)} {vlib.zlist(rnz0)}))) {vlib.zlist(exp)}"
+        f"tvz (efc_view_fx nnz_fix {njmax} {nz} {sp} ({SENT}) (efc_run nnz_fix {njmax} {nz} {sp} ts_{k} {vlib.zlist(adr0)} {vlib.zlist(rnz0)})) {vlib.zlist(exp)}"
       )
       self.meta.append({"label": label, "njmax": njmax, "njmax_nnz": nz, "sparse": sparse, "impl": exp[:6]})
       # ---- oracle: the property itself on the real code, natural (fresh) data ----
@@ -416,7 +416,7 @@ class Sweep:
         continue
       res.count()
       expn = [o["nefc"], o["ne"], o["nf"], o["nl"], o["overflow"] & 1, (o["overflow"] >> 1) & 1]
-      self.lines.append(f"tvz (firstn 6 (efc_view {njmax} {nz} {sp} ({SENT}) (run_tasks {njmax} {nz} {sp} ts_{k} (init_st (zrep {njmax}) (zrep {njmax}))))) {vlib.zlist(expn)}")
+      self.lines.append(f"tvz (firstn 6 (efc_view_fx nnz_fix {njmax} {nz} {sp} ({SENT}) (efc_run nnz_fix {njmax} {nz} {sp} ts_{k} (zrep {njmax}) (zrep {njmax})))) {vlib.zlist(expn)}")
       self.meta.append({"label": label, "njmax": njmax, "njmax_nnz": nz, "sparse": sparse, "kind": "full step, fresh data", "impl": expn})
       if o["overflow"] == 0 and not (close(o["qacc"], ref["qacc"]) and close(o["qpos"], ref["qpos"])):
         why, b, exact = first_shortfall(tasks, njmax, nz, sparse)
@@ -527,9 +527,9 @@ def skeleton_verdicts(skel):
     "Definition b2n (b : bool) : nat := if b then 1%nat else 0%nat.\n"
     "Definition verdicts : list nat :=\n"
     "  map (fun b => b2n (wf_fit b)) (row_builders ++ slot_builders) ++\n"
-    "  map (fun b => b2n (wf_nnz b)) (row_builders ++ slot_builders) ++\n"
+    "  map (fun b => b2n (wf_builder_fx nnz_fix true b)) (row_builders ++ slot_builders) ++\n"
     "  map (fun b => b2n (safe_builder b)) (row_builders ++ slot_builders) ++\n"
-    "  [b2n (probes_eqb overflow_probes expected_probes); length (row_builders ++ slot_builders)].\n"
+    "  [b2n (probes_eqb overflow_probes expected_probes && fx_ok nnz_fix); length (row_builders ++ slot_builders)].\n"
     "Eval vm_compute in verdicts.\n"
   )
   path = "Corr/verdict_C16.v"
@@ -680,6 +680,14 @@ def _run_workers(res, tmp):
   return models, crashes, True
 
 
+def _crash_key(c):
+  if c.get("sparse") and c["njmax_nnz"] == 0:
+    return "C16:crash-before-overflow-flag:sparse-njmax_nnz=0"
+  if c.get("sparse") and c["njmax_nnz"] < 8:
+    return "C16:crash-before-overflow-flag:sparse-small-njmax_nnz"
+  return "C16:crash-before-overflow-flag:other"
+
+
 def run(res):
   res.rule = (
     "correspondence cases: one per (model, capacity setting): njmax swept 0..need+1, njmax_nnz over prefix boundaries / exact fit / random points, "
@@ -702,6 +710,7 @@ def run(res):
     if verd is not None:
       res.extra["skeleton"] = {b["name"]: {k: b[k] for k in ("rows", "perrow", "cmp", "off", "loop", "deferred", "has_nnz", "ncmp", "noff", "adr_before", "rnz_before", "rnz_exact", "guard_text")} for b in skel.builders}
       res.extra["wf_verdicts"] = verd
+      res.extra["nnz_fix"] = skel.host.get("nnz_fix")
       res.obligation("regenerated overflow probes equal the probes the model of _next_time copies", verd["probes_ok"], json.dumps(skel.probes)[:600])
       res.obligation("safe_builder holds for every regenerated builder (alloc_in_bounds applies)", all(verd["safe"].values()), str([k for k, v in verd["safe"].items() if not v]))
   # ---- correspondence + oracle on the real code (worker subprocess) ----
@@ -762,13 +771,7 @@ def run(res):
     res.violation(key, what, data)
   cseen = {}
   for c in crashes:
-    if c.get("sparse") and c["njmax_nnz"] == 0:
-      key = "C16:crash-before-overflow-flag:sparse-njmax_nnz=0"
-    elif c.get("sparse") and c["njmax_nnz"] < 8:
-      key = "C16:crash-before-overflow-flag:sparse-small-njmax_nnz"
-    else:
-      key = "C16:crash-before-overflow-flag:other"
-    cseen.setdefault(key, []).append(c)
+    cseen.setdefault(_crash_key(c), []).append(c)
   for key, cl in sorted(cseen.items()):
     c = min(cl, key=lambda g: len(g.get("xml", "")))
     res.violation(key, f"the real step crashes (rc={c['returncode']}) instead of flagging the overflow: njmax={c['njmax']} njmax_nnz={c['njmax_nnz']} naconmax={c['naconmax']} jacobian={'sparse' if c.get('sparse') else 'dense'}", dict(c, crash=True))
@@ -781,9 +784,11 @@ def run(res):
         res.notes.append(f"wf_fit false for {name} on the regenerated skeleton, not reproduced on the real code by this run")
     for name, v in verd["nnz"].items():
       if not v and skel.by_name()[name]["has_nnz"] and not any(k.endswith(":" + name) and "nnz" in k for k in seen):
-        res.notes.append(f"wf_nnz false for {name} on the regenerated skeleton, not reproduced on the real code by this run (no model of this kind in the corpus)")
+        res.notes.append(f"sparse mode: {name} is not well-formed (wf_builder_fx nnz_fix true) on the regenerated skeleton; not reproduced on the real code by this run (no model of this kind in the corpus)")
   broken = (not ok) or (corr_ok is False) or (verd is not None and not verd["probes_ok"]) or skel is None or incomplete
-  if broken and not (fails or crashes or viol):
+  known = {k["key"] for k in vlib.load_known().get("findings", []) if k.get("property") == "C16"}
+  new_keys = [f["key"] for f in fails if f["key"] not in known] + [v[0] for v in viol if v[0] not in known] + [_crash_key(c) for c in crashes if _crash_key(c) not in known]
+  if broken and not new_keys:
     propkit.broken_proof_violation(res, "C16 allocation model no longer tied to the code", failing or "correspondence", data=[mt for mt, v in zip(meta, verdicts) if v != 0][:5])
   res.assumptions += [
     "Warp CPU launches run tasks in ascending tid order and launches are sequential (request order of the correspondence)",
